@@ -72,19 +72,20 @@ def N(name):
   return NF.sym(name)
 
 
-def mock_layer(cname, rank):
-  """(layer mock, input_shape) with symbolic shapes."""
+def mock_layer(cname, rank, batch=None):
+  """(layer mock, input_shape) with symbolic shapes; `batch` is the leading
+  dimension (None, or a number for a model built with a fixed batch size)."""
   if rank == 4:
-    ishape = (None, S("Hi"), S("Wi"), S("Ci"))
-    oshape = (None, S("Ho"), S("Wo"), S("Co"))
+    ishape = (batch, S("Hi"), S("Wi"), S("Ci"))
+    oshape = (batch, S("Ho"), S("Wo"), S("Co"))
     kshape = (S("kh"), S("kw"), S("kc"), S("kn"))
   elif rank == 3:
-    ishape = (None, S("Ti"), S("Ci"))
-    oshape = (None, S("To"), S("Co"))
+    ishape = (batch, S("Ti"), S("Ci"))
+    oshape = (batch, S("To"), S("Co"))
     kshape = (S("k"), S("kc"), S("kn"))
   else:
-    ishape = (None, S("Ci"))
-    oshape = (None, S("Co"))
+    ishape = (batch, S("Ci"))
+    oshape = (batch, S("Co"))
     kshape = (S("Ci"), S("Co"))
   attrs = {
       "__class__": Mock("class", {"__name__": cname}),
@@ -192,6 +193,8 @@ COUNT_CLASSES = ("Dense", "QDense", "Conv1D", "QConv1D", "Conv2D", "QConv2D",
                  "QDepthwiseConv2DBatchnorm", "AveragePooling2D",
                  "QAveragePooling2D", "GlobalAveragePooling2D",
                  "QGlobalAveragePooling2D", "Add", "Multiply", "Maximum")
+# further merge / pooling classes, checked for batch independence only
+BATCH_ONLY_CLASSES = ("Subtract", "Average", "Minimum", "MaxPooling2D")
 
 
 def rule_counts(rep, repo):
@@ -204,8 +207,10 @@ def rule_counts(rep, repo):
   fw = Fwd()
   symbolic_skipped = []
   rep.extra["decided_on_concrete_geometries_only"] = symbolic_skipped
-  for cname in COUNT_CLASSES:
+  for cname in COUNT_CLASSES + BATCH_ONLY_CLASSES:
     refs, rank = reference_count(cname)
+    if cname in BATCH_ONLY_CLASSES:
+      refs, rank = None, 4
     layer, ishape = mock_layer(cname, rank)
     pe = PE(repo)
     pe.fork = Fork([])      # asserts on symbolic shapes are assumed to hold
@@ -227,13 +232,35 @@ def rule_counts(rep, repo):
         got.depends_on(("sym", s_)) for s_ in ("Hi", "Wi", "Ti")):
       symbolic_skipped.append(cname)
       continue
-    rep.check(any(got == ref for ref in refs), "R1", unit,
-              "count:%s:reported %s" % (cname, show(got)),
-              "operation count of a %s layer is %s, the layer performs %s "
-              "multiply-accumulates per sample" %
-              (cname, show(got), " or ".join(show(r_) for r_ in refs)),
-              loc=qu.loc(fn), facts={"class": cname, "got": show(got)})
-    rep.sample({"class": cname, "operation_count": show(got)})
+    if refs is not None:
+      rep.check(any(got == ref for ref in refs), "R1", unit,
+                "count:%s:reported %s" % (cname, show(got)),
+                "operation count of a %s layer is %s, the layer performs %s "
+                "multiply-accumulates per sample" %
+                (cname, show(got), " or ".join(show(r_) for r_ in refs)),
+                loc=qu.loc(fn), facts={"class": cname, "got": show(got)})
+      rep.sample({"class": cname, "operation_count": show(got)})
+    # "for one input sample": a model built with a fixed batch size reports
+    # the same count
+    layer_b, ishape_b = mock_layer(cname, rank, batch=4)
+    pe = PE(repo)
+    pe.fork = Fork([])
+    try:
+      rb = pe.call(pe.lookup_global("get_operation_count", qu),
+                   [layer_b, ishape_b], {})
+      got_b = fw(rb.term) if isinstance(rb, Tensor) else NF.const(F(rb))
+    except (PyRaise, Unsupported) as e:
+      got_b = None
+      rep.fail("R1", unit, "count-raises:" + cname,
+               "get_operation_count raises %s for a %s layer of a model "
+               "with batch size 4" % (e, cname), loc=qu.loc(fn))
+    if got_b is not None:
+      rep.check(got_b == got, "R1", unit, "count-depends-on-batch:" + cname,
+                "operation count of a %s layer is %s in a model built with "
+                "batch size 4 and %s with an unspecified batch size; the "
+                "count is per input sample" % (cname, show(got_b),
+                                               show(got)),
+                loc=qu.loc(fn), facts={"class": cname})
   # the same function on concrete geometries: a count that is derived from
   # the layer's hyper-parameters instead of compute_output_shape must agree
   # with Keras' output-size rule for every stride / padding / dilation
